@@ -4,8 +4,9 @@ import Unsized.MachineOps
 
 `Ev` is what hook H3 (`star_frame::verif_hooks::RAW_TRACE`) records, plus two model-only markers:
 
-* `realloc old new` — `unsized_data_realloc` called by the top wrapper's `add_bytes` / `remove_bytes`
-  (logged BEFORE the call: a refused or over-limit growth still appears, as the last event);
+* `realloc old new ok` — `unsized_data_realloc` called by the top wrapper's `add_bytes` / `remove_bytes`
+  (logged BEFORE the call: a refused or over-limit growth still appears, as the last event; `ok` says
+  whether the data access granted it — not part of the printed trace);
 * `move dst src n`  — a `sol_memmove`: the one of `add_bytes` (after the realloc, skipped when the insertion
   point is the end), the one of `remove_bytes` (before the realloc, skipped when the removed range ends at
   the end), the offset-table shifts of `UnsizedList::insert_all_with_offsets` (after `add_bytes`, always
@@ -27,7 +28,7 @@ open Common Unsized Unsized.Text
 /-- One traced event. -/
 inductive Ev where
   | call
-  | realloc (old new : Nat)
+  | realloc (old new : Nat) (ok : Bool)
   | move (dst src n : Nat)
   | notify (src : Nat) (neg : Bool) (amt : Nat) (bytes : List Nat)
   deriving Repr, Inhabited
@@ -42,9 +43,9 @@ def addBytesEvs (m : Mem) (start amount : Nat) : List Ev :=
   if m.bytes.length < start then [.call]
   else if amount = 0 then [.call]
   else if m.grows + 1 ∈ m.refuse ∨ m.orig + maxIncrease < m.bytes.length + amount then
-    [.call, .realloc m.bytes.length (m.bytes.length + amount)]
-  else if start = m.bytes.length then [.call, .realloc m.bytes.length (m.bytes.length + amount)]
-  else [.call, .realloc m.bytes.length (m.bytes.length + amount),
+    [.call, .realloc m.bytes.length (m.bytes.length + amount) false]
+  else if start = m.bytes.length then [.call, .realloc m.bytes.length (m.bytes.length + amount) true]
+  else [.call, .realloc m.bytes.length (m.bytes.length + amount) true,
         .move (start + amount) start (m.bytes.length - start)]
 
 def Mem.addBytesT (m : Mem) (start amount : Nat) : Traced Unit :=
@@ -56,9 +57,9 @@ def removeBytesEvs (m : Mem) (start stop : Nat) : List Ev :=
   else if stop < start then [.call]
   else if m.bytes.length < stop then [.call]
   else if stop = start then [.call]
-  else if stop = m.bytes.length then [.call, .realloc m.bytes.length (m.bytes.length - (stop - start))]
+  else if stop = m.bytes.length then [.call, .realloc m.bytes.length (m.bytes.length - (stop - start)) true]
   else [.call, .move start stop (m.bytes.length - stop),
-        .realloc m.bytes.length (m.bytes.length - (stop - start))]
+        .realloc m.bytes.length (m.bytes.length - (stop - start)) true]
 
 def Mem.removeBytesT (m : Mem) (start stop : Nat) : Traced Unit :=
   (m.removeBytes start stop, removeBytesEvs m start stop)
@@ -414,12 +415,12 @@ def applyOpT (s : Shape) (abs : List Step) (op : Op) (m : Mem) : Traced Ret :=
 
 /-- The raw accesses among the events (what H3 records). -/
 def Ev.isRaw : Ev → Bool
-  | .realloc _ _ => true
+  | .realloc _ _ _ => true
   | .move _ _ _ => true
   | _ => false
 
 def Ev.show : Ev → String
-  | .realloc o n => s!"r:{o}:{n}"
+  | .realloc o n _ => s!"r:{o}:{n}"
   | .move d s n => s!"m:{d}:{s}:{n}"
   | .call => "call"
   | .notify .. => "notify"
@@ -428,5 +429,29 @@ def showAcc (evs : List Ev) : String :=
   match evs.filter Ev.isRaw with
   | [] => "-"
   | l => ",".intercalate (l.map Ev.show)
+
+/-! ## The bounds checker the theorems are about -/
+
+/-- The data length after the events (`len` before them). -/
+def lenAfter : Nat → List Ev → Nat
+  | len, [] => len
+  | len, .realloc _ new ok :: es => lenAfter (if ok then new else len) es
+  | len, _ :: es => lenAfter len es
+
+/-- Every raw access of the event list stays inside the data of that moment: a granted realloc goes to
+at most `cap` (= `orig + 10240`), every `memmove` reads and writes inside `[0, len)` where `len` is the
+data length at that moment (after the growths that preceded it, before the shrink that follows it). -/
+def evsOk (cap : Nat) : Nat → List Ev → Bool
+  | _, [] => true
+  | len, .realloc _ new ok :: es =>
+    if ok then decide (new ≤ cap) && evsOk cap new es else evsOk cap len es
+  | len, .move d s n :: es => decide (d + n ≤ len) && decide (s + n ≤ len) && evsOk cap len es
+  | len, _ :: es => evsOk cap len es
+
+/-- The largest data length during the events. -/
+def maxLen : Nat → List Ev → Nat
+  | len, [] => len
+  | len, .realloc _ new ok :: es => max len (maxLen (if ok then new else len) es)
+  | len, _ :: es => maxLen len es
 
 end Unsized.Machine
